@@ -45,4 +45,13 @@ man = {
     "notes": "See DESIGN.md. Every check: proof audit (full make, Print Assumptions transcript, forbidden-construct scan) + correspondence model<->/repo + oracle stage; known findings in known_findings.json.",
 }
 json.dump(man, open(os.path.join(ROOT, "MANIFEST.json"), "w"), indent=1)
+# merge known findings fragments
+import glob
+kf, seen = [], set()
+for f in sorted(glob.glob(os.path.join(ROOT, "known_findings.d", "*.json"))):
+    for e in json.load(open(f)).get("findings", []):
+        if (e["property"], e["id"]) not in seen:
+            seen.add((e["property"], e["id"]))
+            kf.append(e)
+json.dump({"findings": kf}, open(os.path.join(ROOT, "known_findings.json"), "w"), indent=1)
 print("checks:", [c["property_id"] for c in checks], "not_applicable:", len(na))
